@@ -35,13 +35,13 @@ def main():
             print("%-45s caught by the existing tests: %s" % (mu["name"], t.stdout.strip().splitlines()[-1][:150])); results.append((mu["name"], "tests")); continue
         verdicts = []
         for prop in (props_override or mu["props"]):
-            c = sh("cd %s && VERIF_REPO=%s VERIF_ROOT_NOEVIDENCE=1 ./check %s quick" % (ROOT, wt, prop))
+            c = sh("cd %s && VERIF_REPO=%s VERIF_SCRATCH_OUT=/tmp/mut_out ./check %s quick" % (ROOT, wt, prop))
             v = "KILLED" if c.returncode == 1 and "VIOLATION" in c.stdout else ("BROKEN" if c.returncode == 2 else "survived")
             keys = sorted(set(re.findall(r"key=(\S+)", c.stdout)))[:3]
             verdicts.append("%s:%s%s" % (prop, v, (" " + ",".join(keys)) if v == "KILLED" else ""))
         print("%-45s %s" % (mu["name"], "  ".join(verdicts))); results.append((mu["name"], verdicts))
         sys.stdout.flush()
     sh("git -C /repo worktree remove --force %s" % wt)
-    sh("rm -rf %s/replays" % ROOT)
+    sh("rm -rf /tmp/mut_out")
     return 0
 sys.exit(main())
